@@ -49,7 +49,7 @@ def outcomes(D, nmax, rng, limit):
 
 def function_level(ctx, rep):
     pm = sys.modules.get("pybads.poll.poll_mads_2n")
-    if pm is None or not hasattr(pm, "rnd"):
+    if pm is None:
         import pybads.poll  # noqa
         pm = sys.modules["pybads.poll.poll_mads_2n"]
     rng = ctx.sub_rng("c14")
@@ -70,15 +70,17 @@ def function_level(ctx, rep):
                 sms = ms * ratio
                 ps = np.array([rng.choice([1.0, 0.5, 2.0, 1.0 / 3.0, 0.7]) for _ in range(D)])
                 cases.append((D, sms, ms, ps, mat, sg, perm))
-    old = pm.rnd
+    old = (np.random.randint, np.random.permutation)
     impl = []
     try:
         for D, sms, ms, ps, mat, sg, perm in cases:
-            pm.rnd = Scripted(mat, sg, perm)
+            # the scripted source replaces the two numpy.random functions on the module itself (whatever alias the code uses)
+            sc = Scripted(mat, sg, perm)
+            np.random.randint, np.random.permutation = sc.randint, sc.permutation
             B = pm.poll_mads_2n(D, ps, sms, ms)
             impl.append(np.asarray(B) * ps)       # the caller multiplies by poll_scale again
     finally:
-        pm.rnd = old
+        np.random.randint, np.random.permutation = old
     reqs = [{"cmd": "poll.dirs", "n": D, "sms": enc(sms), "ms": enc(ms), "draw": mat, "sgn": sg, "perm": perm} for D, sms, ms, ps, mat, sg, perm in cases]
     res = ctx.driver.call_many(reqs)
     rows = [[[Fraction(float(np.round(v, 9))).limit_denominator(10 ** 6) for v in r] for r in B] for B in impl]
